@@ -586,6 +586,14 @@ func judgeClock() *eng.Fail {
 	if f[1] > t1.UnixMilli() || f[1] < t0.UnixMilli()-2*86400*1000 {
 		return eng.F("C19/toDay", "toDay() = %d ms is not within the day before the call", f[1])
 	}
+	// an instant beyond 2^53 milliseconds is exact inside the formula (only the float64 handed back for a
+	// whole formula rounds)
+	far := time.UnixMilli(9007199254740993)
+	if of, errf := evalWith("[millSecond(t) - 9007199254740000, millSecond(t) % 1000, toString(millSecond(t)), millSecond(t) === 9007199254740993, millSecond(addDate(t, 0, 0, 1)) - millSecond(t)]", map[string]interface{}{"t": far}); errf != nil || of.panicked || of.err != nil {
+		return eng.F("C19/eval", "millSecond beyond 2^53: %v %v %s", errf, of.err, of.panicMsg)
+	} else if got := show(of.val); got != "[num:993,num:993,str:\"9007199254740993\",bool:true,num:86400000]" {
+		return eng.F("C19/millSecond", "with t = UnixMilli(9007199254740993): [millSecond(t) - 9007199254740000, millSecond(t) %% 1000, toString(millSecond(t)), millSecond(t) === 9007199254740993, one day later - t] = %s", got)
+	}
 	// every call has its own bracket: also on a runner that has read the clock before, in an evaluation
 	// that succeeded or in one that failed afterwards
 	r := formula.NewRunner()
